@@ -52,11 +52,11 @@ VARIANTS = [
          [(EM, "        if len(gate.parameters) != len(macro.parameters):\n", "        if len(gate.parameters) < len(macro.parameters):\n")],
          ("C04.3", "arity-guard")),
     fire("c04-nested-call-not-expanded",
-         [(EM, "        new_gate = GateStatement(gate.gate_def, new_parameters)\n        return replace_gate(new_gate, self.macros)",
-           "        new_gate = GateStatement(gate.gate_def, new_parameters)\n        return new_gate")],
+         [(EM, "        new_gate = gate.gate_def(*new_parameters.values())\n        return replace_gate(new_gate, self.macros)",
+           "        new_gate = gate.gate_def(*new_parameters.values())\n        return new_gate")],
          ("C04.4", "GateReplacer:visit_GateStatement")),
     fire("c04-replacer-drops-gate-args",
-         [(EM, "        new_gate = GateStatement(gate.gate_def, new_parameters)", "        new_gate = GateStatement(gate.gate_def, {})")],
+         [(EM, "        new_gate = gate.gate_def(*new_parameters.values())", "        new_gate = gate.gate_def()")],
          ("C04.1", "GateStatement")),
     fire("c04-index-not-substituted",
          [(EM, "        alias_index = filter_float(self.visit(qubit.alias_index))", "        alias_index = qubit.alias_index")],
